@@ -11,6 +11,8 @@ from array import array
 import data_msg
 from data_msg import TxMsg, RxMsg, Modulation
 import data_if
+import data_dump
+import io
 
 
 class MemSock:
@@ -129,8 +131,74 @@ def ok(s=""):
     return "ok" if s == "" else "ok " + s
 
 
+def mk_msgs(tok):
+    out, i = [], 0
+    while i < len(tok):
+        if tok[i] == "T":
+            out.append(mk_tx(tok[i + 1:i + 6]))
+            i += 6
+        elif tok[i] == "R":
+            out.append(mk_rx(tok[i + 1:i + 12]))
+            i += 12
+        else:
+            raise AssertionError("bad message list")
+    return out
+
+
+def show_msg(m):
+    return ("T " + show_tx(m)) if isinstance(m, TxMsg) else ("R " + show_rx(m))
+
+
+def show_all(r):
+    if r is False:
+        return "False"
+    return " ".join([str(len(r))] + [show_msg(m) for m in r])
+
+
+def opt_nat(s):
+    return None if s == "-" else int(s)
+
+
+def dump_file(data):
+    ddf = data_dump.DATADumpFile(io.BytesIO(bytes(data)))
+    return ddf
+
+
+def handle_dump(tok):
+    verb = tok[0]
+    if verb == "dump.write":
+        ddf = dump_file(b"")
+        ddf.append_all(mk_msgs(tok[1:]))
+        return ok(show_octets(ddf.f.getvalue()))
+    if verb == "dump.parseall":
+        ddf = dump_file(octets(tok[3]))
+        return ok(show_all(ddf.parse_all(opt_nat(tok[1]), opt_nat(tok[2]))))
+    if verb == "dump.parsemsg":
+        ddf = dump_file(octets(tok[2]))
+        r = ddf.parse_msg(int(tok[1]))
+        return ok("None" if r is None else ("False" if r is False else show_msg(r)))
+    if verb == "dump.cutscan":
+        data = octets(tok[3])
+        skip, count = opt_nat(tok[1]), opt_nat(tok[2])
+        full = dump_file(data).parse_all(skip, count)
+        full_s = None if full is False else [show_msg(m) for m in full]
+        cells = []
+        for c in range(len(data) + 1):
+            r = dump_file(data[:c]).parse_all(skip, count)
+            if r is False:
+                cells.append("F")
+            else:
+                rs = [show_msg(m) for m in r]
+                okp = full_s is not None and rs == full_s[:len(rs)]
+                cells.append("%d%s" % (len(rs), "" if okp else "!"))
+        return ok(" ".join(cells))
+    return "bad-op"
+
+
 def handle(tok):
     verb = tok[0]
+    if verb.startswith("dump."):
+        return handle_dump(tok)
     if verb in ("trxd.tx.validate", "trxd.rx.validate"):
         m = mk_tx(tok[1:]) if ".tx." in verb else mk_rx(tok[1:])
         m.validate()
